@@ -7,6 +7,7 @@ import (
 	"github.com/jawher/mow.cli/internal/fsm"
 	"github.com/jawher/mow.cli/internal/lexer"
 	"github.com/jawher/mow.cli/internal/matcher"
+	"github.com/jawher/mow.cli/internal/verifhook"
 )
 
 // Params are used to cofigure the parser
@@ -93,6 +94,7 @@ func (p *parser) seq(required bool) (*fsm.State, *fsm.State) {
 		appendComp(s, e)
 	}
 	for p.canAtom() {
+		verifhook.Point("parser.seq")
 		s, e := p.choice()
 		appendComp(s, e)
 	}
@@ -110,12 +112,14 @@ func (p *parser) choice() (*fsm.State, *fsm.State) {
 
 	add(p.atom())
 	for p.found(lexer.TTChoice) {
+		verifhook.Point("parser.choice")
 		add(p.atom())
 	}
 	return start, end
 }
 
 func (p *parser) atom() (*fsm.State, *fsm.State) {
+	verifhook.Point("parser.atom")
 	start := fsm.NewState()
 	var end *fsm.State
 	switch {
